@@ -540,3 +540,100 @@ func TestC05History(t *testing.T) {
 		t.Fatalf("VERIF-FAIL C05/history: %d calls on one connection used %d distinct ids (duplicate %d)", calls, len(ids), dup)
 	}
 }
+
+// ---- C05 leftover: what one stream leaves unread must not reach the next one ---------------------
+
+type C05Left struct {
+	Streams [][2]int `json:"streams"` // per stream, in order on one connection: messages the caller sends, messages the handler reads before returning
+	Kind    int      `json:"kind"`    // client-streaming or bidi
+	Gap     bool     `json:"gap"`     // settle between the caller's sends (otherwise they are written back to back)
+	Ser     bool     `json:"ser"`
+}
+
+func genC05Left(t *rapid.T) C05Left {
+	c := C05Left{Kind: rapid.SampledFrom([]int{kit.KindClient, kit.KindBidi}).Draw(t, "kind"), Gap: rapid.Bool().Draw(t, "gap"), Ser: rapid.Bool().Draw(t, "ser")}
+	n := rapid.IntRange(2, 6).Draw(t, "streams")
+	for i := 0; i < n; i++ {
+		sent := rapid.IntRange(0, 8).Draw(t, "sent")
+		c.Streams = append(c.Streams, [2]int{sent, rapid.IntRange(0, sent).Draw(t, "read")})
+	}
+	return c
+}
+
+// execC05Left: streams follow one another on one connection; each handler reads only some of what its caller sends
+// and returns. Every handler must receive a prefix of its own caller's messages and nothing else - in particular
+// nothing a predecessor left unread.
+func execC05Left(t *testing.T, c C05Left) (v Verdict) {
+	n := len(c.Streams)
+	got := make([][][]byte, n)
+	var mu sync.Mutex
+	next := 0
+	res := kit.Bubble(t, func() {
+		svc := kit.NewSvc()
+		svc.Stream("l", true, true, func(s grpcServerStream) error {
+			mu.Lock()
+			i := next
+			next++
+			mu.Unlock()
+			if i >= n {
+				return nil
+			}
+			for k := 0; k < c.Streams[i][1]; k++ {
+				b, err := kit.RecvBytes(s)
+				if err != nil {
+					return nil
+				}
+				mu.Lock()
+				got[i] = append(got[i], b)
+				mu.Unlock()
+			}
+			return nil
+		})
+		w := kit.NewWorld(kit.Topo{Kind: "direct", Serialize: c.Ser, Clients: 1}, svc, nil, nil)
+		for i := 0; i < n; i++ {
+			cs, err := w.Conn(0).NewStream(context.Background(), kit.StreamDescFor(c.Kind), kit.FullMethod("l"))
+			if err != nil {
+				v.failf("stream %d: open failed: %v", i, err)
+				break
+			}
+			for j := 0; j < c.Streams[i][0]; j++ {
+				_ = kit.SendBytes(cs, []byte{0x1F, byte(i), byte(j)})
+				if c.Gap {
+					kit.Settle()
+				}
+			}
+			_ = cs.CloseSend()
+			for {
+				if _, err := kit.RecvBytes(cs); err != nil {
+					break
+				}
+			}
+			kit.Settle()
+		}
+		w.Shutdown()
+		kit.Settle()
+	})
+	if res.Panic != nil {
+		v.failf("panic: %v\n%s", res.Panic, res.Stack)
+	}
+	leftovers := 0
+	for i := 0; i < n; i++ {
+		sent, read := c.Streams[i][0], c.Streams[i][1]
+		if sent-read >= 2 {
+			leftovers++
+		}
+		if len(got[i]) > read {
+			v.failf("stream %d: handler received %d messages, it only asked for %d", i, len(got[i]), read)
+		}
+		for k, b := range got[i] {
+			if len(b) != 3 || b[0] != 0x1F || int(b[1]) != i || int(b[2]) != k {
+				v.failf("stream %d (the %d-th on this connection): its handler's receive #%d returned %v, its own caller's message #%d is [1f %02x %02x] - a message of another stream", i, i+1, k, b, k, i, k)
+				break
+			}
+		}
+	}
+	v.Info = kit.CaseInfo{Labels: []string{"leftover", fmt.Sprintf("leftover.streams_with_2+_unread=%d", min(leftovers, 3))}, NonTrivial: leftovers >= 1, Key: fmt.Sprintf("%+v", c), Sample: c}
+	return
+}
+
+func TestC05Left(t *testing.T) { checkProp(t, "C05", "leftover", genC05Left, execC05Left) }
